@@ -3,6 +3,7 @@ package main
 import (
 	"bufio"
 	"bytes"
+	"encoding/binary"
 	"fmt"
 	"os"
 	"path/filepath"
@@ -258,6 +259,33 @@ func famCrash(w *bufio.Writer, seed uint64, n int) error {
 		if err != nil {
 			return err
 		}
+		// the write/sync discipline of every file, for the model's barrier check: w = a write,
+		// f = a footer write (starts with the magic pair and records its own offset), s = sync
+		perFile := map[string][]sx{}
+		var fileOrder []string
+		for _, op := range wl.ops {
+			if op.Kind != "write" && op.Kind != "sync" {
+				continue
+			}
+			if _, ok := perFile[op.File]; !ok {
+				fileOrder = append(fileOrder, op.File)
+				perFile[op.File] = []sx{"file", fmt.Sprintf("%q", op.File)}
+			}
+			tag := "s"
+			if op.Kind == "write" {
+				tag = "w"
+				d := op.Data
+				if len(d) >= 44 && bytes.HasPrefix(d, moss.StoreMagicBeg) && bytes.HasPrefix(d[len(moss.StoreMagicBeg):], moss.StoreMagicBeg) &&
+					int64(binary.LittleEndian.Uint64(d[len(d)-24:len(d)-16])) == op.Off {
+					tag = "f"
+				}
+			}
+			perFile[op.File] = append(perFile[op.File], tag)
+		}
+		optrace := []sx{"optrace"}
+		for _, fn := range fileOrder {
+			optrace = append(optrace, perFile[fn])
+		}
 		// crash points: every op boundary of interest + torn writes
 		var points [][2]int
 		for p := 0; p <= len(wl.ops); p++ {
@@ -365,7 +393,7 @@ func famCrash(w *bufio.Writer, seed uint64, n int) error {
 			emit(L("case", caseID, int64(cs), L("cfg", L("nosync", wl.nosync), L("point", pt[0], pt[1]), L("strategy", strategy),
 				L("nops", len(wl.ops))), L("universe", L())))
 			emit(L("crash", fl, L("opened", opened), L("prefix", prefix), L("nsynced", nSynced), L("nissued", nIssued),
-				L("footer", seqOf(fname), fpos), L("err", fmt.Sprintf("%q", errText))))
+				L("footer", seqOf(fname), fpos), L("err", fmt.Sprintf("%q", errText)), L("nosync", wl.nosync), optrace))
 			emit(L("end"))
 			caseID++
 		}
